@@ -26,7 +26,7 @@ class C17(Prop):
             wts, bias = {"ppa": 1}, "param"       # classes whose list of conditions depends on a parameter (D, M)
         plan = gen_session(rng, tier, peer_mode="tagged", nsolves=rng.choice([1, 1, 2, 3] if wts is None else [2, 3]),
                            class_duals=True, decorations=[] if rng.random() < 0.5 else None, weights=wts,
-                           edit_bias=bias)
+                           edit_bias=bias, dup_names=False)
         # label stress: repeated queries at one (named) point, and several points carrying the same name
         first_solve = next(k for k, op in enumerate(plan["ops"]) if op["op"] == "solve")
         extra = []
